@@ -178,6 +178,27 @@ func (f *Frame) eval(e Expr, c *evalCtx) Val {
 			v.T = un.define("let_"+x.Name, v.T)
 		}
 		return f.eval(x.B, c.with(x.Name, v))
+	case ESetOf:
+		// comprehension: a fresh set constant P with (forall k :: P[k] <==> body); the same body denotes the same constant
+		if un.inQuant > 0 {
+			f.fail("setof under a quantifier is not supported")
+		}
+		srt, gt := f.specSort(x.Var.Type)
+		bv := Term{x.Var.Name + "!so", srt}
+		un.inQuant++
+		body := f.eval(x.Body, c.with(x.Var.Name, Val{T: bv, Go: gt})).T
+		un.inQuant--
+		if un.setMemo == nil {
+			un.setMemo = map[string]Term{}
+		}
+		key := string(srt) + "|" + body.S
+		if p, ok := un.setMemo[key]; ok {
+			return Val{T: p}
+		}
+		pset := un.fresh("setof", ArrSort(srt, SBool))
+		un.decls = append(un.decls, "(assert "+Forall([]Term{bv}, Eq(Select(pset, bv), body), Select(pset, bv)).S+")")
+		un.setMemo[key] = pset
+		return Val{T: pset}
 	case EQuant:
 		nc := c
 		var vars []Term
@@ -214,7 +235,19 @@ func (f *Frame) eval(e Expr, c *evalCtx) Val {
 		for _, grp := range x.Pats {
 			var g []Term
 			for _, p := range grp {
-				g = append(g, f.eval(p, nc).T)
+				pt := f.eval(p, nc).T
+				// `k in m` as a pattern: the membership select itself (a conjunction is not a usable trigger)
+				if b, ok := p.(EBinary); ok && b.Op == "in" && strings.HasPrefix(pt.S, "(and ") {
+					m := f.eval(b.R, nc)
+					if m.Go != nil {
+						if mt, ok := m.Go.Underlying().(*types.Map); ok {
+							dn, _ := un.mapHeaps(m.Go)
+							d := un.H(nc.cur, dn, ArrSort(SInt, ArrSort(un.u.SortOf(mt.Key()), SBool)))
+							pt = Select(Select(d, m.T), f.eval(b.L, nc).T)
+						}
+					}
+				}
+				g = append(g, pt)
 			}
 			pats = append(pats, g)
 		}
@@ -648,6 +681,40 @@ func (f *Frame) evalCall(x ECall, c *evalCtx) Val {
 		b := Term{"b!or", SInt}
 		cur, old := un.H(c.cur, hn, srt), un.H(c.old, hn, srt)
 		return boolVal(Forall([]Term{b}, Implies(Le(b, un.H(c.old, "$next", SInt)), Eq(Select(cur, b), Select(old, b))), Select(cur, b)))
+	case "oldobjs":
+		// oldobjs("T"): every object of struct type T that existed on entry has all its (program) fields unchanged
+		lit, ok := x.Args[0].(EStr)
+		if !ok {
+			f.fail("oldobjs needs a type in quotes")
+		}
+		t := f.lookupType(lit.V)
+		if t == nil {
+			f.fail("oldobjs: unknown type %s", lit.V)
+		}
+		T, sty := derefStruct(t)
+		if sty == nil {
+			f.fail("oldobjs: %s is not a struct type", lit.V)
+		}
+		b := Term{"b!oo", SInt}
+		var cs []Term
+		var except []Term
+		for _, a := range x.Args[1:] {
+			// oldobjs("T", x, ...): ... other than the objects x, ...
+			except = append(except, Neq(b, f.eval(a, c).T))
+		}
+		for _, fi := range un.sinfo(T).fields {
+			if fi.ghost {
+				continue
+			}
+			hn := un.fieldHeap(T, fi.name)
+			srt := ArrSort(SInt, fi.sort)
+			cur, old := un.H(c.cur, hn, srt), un.H(c.old, hn, srt)
+			if cur.S == old.S {
+				continue
+			}
+			cs = append(cs, Forall([]Term{b}, Implies(And(append(append([]Term{}, except...), Le(b, un.H(c.old, "$next", SInt)))...), Eq(Select(cur, b), Select(old, b))), Select(cur, b)))
+		}
+		return boolVal(And(cs...))
 	case "wlocked", "rlocked", "unlocked", "lockstate":
 		lv := f.evalLV(x.Args[0], c)
 		hn, key := un.lockHeap(lv)
@@ -663,12 +730,33 @@ func (f *Frame) evalCall(x ECall, c *evalCtx) Val {
 		return intVal(cur)
 	case "seenset":
 		// seenset(): the set of keys already visited by the map range of this loop, as an array Key -> Bool
+		if sk, ok := c.env["$seenkey"]; ok {
+			if s, ok := un.heapSort[sk.T.S]; ok {
+				return Val{T: un.H(c.cur, sk.T.S, s)}
+			}
+		}
 		for _, key := range f.ranges {
 			if s, ok := un.heapSort[key]; ok {
 				return Val{T: un.H(c.cur, key, s)}
 			}
 		}
 		f.fail("seenset(): no map range in scope")
+	case "mapsframe":
+		// mapsframe(m): every map of m's type other than m is as it was on entry (frame of a loop that writes only m)
+		m := f.eval(x.Args[0], c)
+		mt, ok := m.Go.Underlying().(*types.Map)
+		if !ok {
+			f.fail("mapsframe of a non-map")
+		}
+		ks, vs := un.u.SortOf(mt.Key()), un.u.SortOf(mt.Elem())
+		dn, vn := un.mapHeaps(m.Go)
+		r := Term{"r!mf", SInt}
+		dc, do := un.H(c.cur, dn, ArrSort(SInt, ArrSort(ks, SBool))), un.H(c.old, dn, ArrSort(SInt, ArrSort(ks, SBool)))
+		vc, vo := un.H(c.cur, vn, ArrSort(SInt, ArrSort(ks, vs))), un.H(c.old, vn, ArrSort(SInt, ArrSort(ks, vs)))
+		lim := un.H(c.old, "$next", SInt)
+		return boolVal(And(
+			Forall([]Term{r}, Implies(And(Neq(r, m.T), Le(r, lim)), Eq(Select(dc, r), Select(do, r))), Select(dc, r)),
+			Forall([]Term{r}, Implies(And(Neq(r, m.T), Le(r, lim)), Eq(Select(vc, r), Select(vo, r))), Select(vc, r))))
 	case "emptyset":
 		return Val{T: ConstArr(ArrSort(SStr, SBool), tFalse)}
 	case "domof", "valsof":
@@ -688,6 +776,11 @@ func (f *Frame) evalCall(x ECall, c *evalCtx) Val {
 	case "seen":
 		// seen(k): key k already visited by the (innermost) map range of this loop
 		k := f.eval(x.Args[0], c)
+		if sk, ok := c.env["$seenkey"]; ok {
+			if s, ok := un.heapSort[sk.T.S]; ok {
+				return boolVal(Select(un.H(c.cur, sk.T.S, s), k.T))
+			}
+		}
 		for _, key := range f.ranges {
 			if s, ok := un.heapSort[key]; ok && keySort(s) == k.T.Sort {
 				return boolVal(Select(un.H(c.cur, key, s), k.T))
@@ -709,6 +802,19 @@ func (f *Frame) evalCall(x ECall, c *evalCtx) Val {
 			args = append(args, f.eval(a, c))
 		}
 		return f.applySpec(d, args, c)
+	}
+	// a function-typed parameter of the unit with a pure callback contract
+	if v, ok := c.env[x.Fn]; ok && v.Go != nil && f.fn != nil {
+		if sig, ok := v.Go.Underlying().(*types.Signature); ok && sig.Results().Len() == 1 {
+			key := f.fn.String() + "." + x.Fn
+			if ct := un.eng.callbacks[key]; ct != nil && ct.Pure {
+				var args []Val
+				for _, a := range x.Args {
+					args = append(args, f.eval(a, c))
+				}
+				return f.pureCallbackApp(key, v.T, args, sig)
+			}
+		}
 	}
 	if i := strings.Index(x.Fn, "."); i > 0 {
 		if _, ok := c.env[x.Fn[:i]]; ok {
